@@ -274,7 +274,7 @@ impl StorageEngine {
         }
         
         let stored_value = StoredValue::with_expiration(Value::String(value), expires_in);
-        let expires_at = Instant::now() + expires_in;
+        let expires_at = super::value::ValueMetadata::deadline_after(expires_in);
         shard_guard.expiring_keys.insert(key.clone(), expires_at);
         shard_guard.data.insert(key.clone(), stored_value);
         shard_guard.mark_modified(&key);
@@ -389,7 +389,7 @@ impl StorageEngine {
         
         if let Some(stored_value) = shard_guard.data.get_mut(key) {
             stored_value.metadata.set_expiration(expires_in);
-            shard_guard.expiring_keys.insert(key.to_vec(), Instant::now() + expires_in);
+            shard_guard.expiring_keys.insert(key.to_vec(), super::value::ValueMetadata::deadline_after(expires_in));
             shard_guard.mark_modified(key);
             Ok(true)
         } else {
